@@ -38,18 +38,33 @@ def canon_outs(outs):
             res.append(o)
     return res + sorted(run)
 
+def ins_args(o):
+    """('ins', f, net, peer, pid, filtered[, nh, nhinv])"""
+    nh, nhinv = (o[6], o[7]) if len(o) > 6 else (0, False)
+    return o[1], o[2], o[3], o[4], o[5], nh, nhinv
+
 def tabop_to_val(o):
     if o[0] == 'start': return [0, o[1]]
-    if o[0] == 'ins': return [1, o[1], o[2], o[3], o[4], 1 if o[5] else 0]
+    if o[0] == 'ins':
+        f, net, peer, pid, flt, nh, nhinv = ins_args(o)
+        return [1, f, net, peer, pid, 1 if flt else 0, nh, 1 if nhinv else 0]
     if o[0] == 'rem': return [3, o[1], o[2], o[3], o[4]]
     if o[0] == 'drop': return [4, o[1], o[2]]
+    if o[0] == 'restale': return [5, o[1], o[2]]
+    if o[0] == 'dstale': return [6, o[1], o[2]]
+    if o[0] == 'nhv': return [7, o[1], 1 if o[2] else 0]
     return [2, o[1]]
 
 def tabop_to_coq(o):
     if o[0] == 'start': return '(TStart %s)' % cN(o[1])
-    if o[0] == 'ins': return '(TInsert %s %s %s %s %s)' % (cN(o[1]), cN(o[2]), cN(o[3]), cN(o[4]), cbool(o[5]))
+    if o[0] == 'ins':
+        f, net, peer, pid, flt, nh, nhinv = ins_args(o)
+        return '(TInsert %s %s %s %s %s %s %s)' % (cN(f), cN(net), cN(peer), cN(pid), cbool(flt), cN(nh), cbool(nhinv))
     if o[0] == 'rem': return '(TRemove %s %s %s %s)' % (cN(o[1]), cN(o[2]), cN(o[3]), cN(o[4]))
     if o[0] == 'drop': return '(TDrop %s %s)' % (cN(o[1]), cN(o[2]))
+    if o[0] == 'restale': return '(TRestale %s %s)' % (cN(o[1]), cN(o[2]))
+    if o[0] == 'dstale': return '(TDropStale %s %s)' % (cN(o[1]), cN(o[2]))
+    if o[0] == 'nhv': return '(TNhValid %s %s)' % (cN(o[1]), cbool(o[2]))
     return '(TEnd %s)' % cN(o[1])
 
 def sysev_to_val(e):
@@ -104,7 +119,7 @@ class Prop:
     required_theorems = ['deferring_implies_pending', 'pending_refines_spec', 'family_released_exactly_once',
                          'release_only_when_unblocked_or_timer', 'non_gr_peer_never_blocks',
                          'held_prefixes_announced_once_partial', 'end_deferral_emits_held_once',
-                         'insert_while_deferring_is_held', 'mutators_quiet_while_deferring']
+                         'insert_while_deferring_is_held', 'mutators_quiet_while_deferring', 'marking_and_nexthop_quiet_while_deferring']
     correspondence_name = ('Model/Deferral.v rd_new/rd_step vs daemon/src/gr.rs RestartingDeferral::{new,process} '
                            '(harness/daemon/gr_hx.rs)')
     rule = ('cases = (configured GR families per peer, timer duration, input sequence); a case is non-trivial when the '
@@ -187,12 +202,21 @@ class Prop:
                  [(1, [F[0]]), (2, [F[0], F[1]])],
                  [(1, [F[0], F[1]]), (2, [])]]
         alA = self.alphabet([1, 2], F[:2])
+        # a peer that is not configured at all, and a family outside the two
+        alA += [('est', 3, [F[0]]), ('eor', 3, F[0]), ('wd', 3), ('eor', 1, F[2]), ('est', 2, [F[2], F[1]])]
         dA = 3 if tier == 'quick' else 4
         for ci, cfg in enumerate(cfgsA):
             if tier == 'quick' and ci > 0:
                 continue
             for seq in itertools.product(alA, repeat=(dA if ci == 0 else 3)):
                 cases.append(dict(peers=cfg, dur=360, ins=list(seq)))
+        # -- A2: degenerate configurations and timer durations, every pair of inputs: no GR peer at all, only peers
+        #        without GR, a duplicated peer key (last value wins), duplicated families, timer disabled / 0 s
+        for cfg, dur in [([], 360), ([(1, []), (2, [])], 360), ([(1, [F[0]]), (1, [F[1]])], 360),
+                         ([(1, [F[0], F[0], F[1]])], None), ([(1, [F[0]]), (2, [F[0]])], 0),
+                         ([(1, [F[0], F[1]]), (2, [F[1]])], None)]:
+            for seq in itertools.product(alA, repeat=2):
+                cases.append(dict(peers=cfg, dur=dur, ins=list(seq), cls='rd_degenerate_config'))
         # -- B: three peers, three families, all sequences of length 2 (quick) / 3 (thorough) after
         #       state-reaching prefixes
         cfgB = [(1, [F[0], F[1], F[2]]), (2, [F[1], F[2]]), (3, [F[2], F[2]])]
@@ -243,30 +267,64 @@ class Prop:
                     ins.append(('timer',))
             cases.append(dict(peers=cfg, dur=rng.choice([None, 1, 360]), ins=ins))
         # -- D: the deferral slice of the RIB
+        # D1 (enumerated): every sequence of length 3 (thorough: 4) over an alphabet that has every operation of the
+        #     slice on one prefix of one family (two peers, an unfiltered, a filtered and a next-hop-invalid path, a second
+        #     prefix, a withdrawal, a peer drop, stale marking and purge, the next hop going down and up) and a second family
+        a, b = F[0], F[1]
+        alT = [('start', a), ('end', a),
+               ('ins', a, 0, 1, 0, False, 1, False), ('ins', a, 0, 2, 0, False, 2, False),
+               ('ins', a, 0, 1, 0, True, 1, False), ('ins', a, 0, 1, 0, False, 1, True),
+               ('ins', a, 1, 1, 0, False, 1, False),
+               ('rem', a, 0, 1, 0), ('drop', a, 1), ('restale', a, 1), ('dstale', a, 1),
+               ('nhv', 1, False), ('nhv', 1, True),
+               ('start', b), ('ins', b, 0, 1, 0, False, 1, False), ('end', b)]
+        dT = 3 if tier == 'quick' else 4
+        for seq in itertools.product(alT, repeat=dT):
+            cases.append(dict(kind='tab', cls='tab_enum', ops=list(seq)))
+        # D2 (enumerated): from states with something held (two paths of one prefix while deferring; a filtered-only
+        #     and a next-hop-invalid-only destination; double start; end without start), every pair of operations
+        presT = [[('start', a), ('ins', a, 0, 1, 0, False, 1, False), ('ins', a, 0, 2, 0, False, 2, False)],
+                 [('start', a), ('ins', a, 0, 1, 0, True, 1, False), ('ins', a, 1, 2, 0, False, 2, True)],
+                 [('start', a), ('start', a), ('ins', a, 0, 1, 0, False, 1, False), ('end', a), ('end', a)],
+                 [('ins', a, 0, 1, 0, False, 1, False), ('ins', a, 0, 2, 0, False, 2, False), ('restale', a, 1), ('start', a)],
+                 [('end', a), ('ins', a, 0, 1, 0, False, 1, False), ('nhv', 1, False), ('start', a), ('start', b)]]
+        for pre in presT:
+            for seq in itertools.product(alT, repeat=2):
+                cases.append(dict(kind='tab', cls='tab_enum_from_state', ops=pre + list(seq)))
+        # D3: random longer sequences
         ntab = 600 if tier == 'quick' else 6000
         for _ in range(ntab):
             ops = []
             fams = rng.sample(F, rng.choice([1, 2, 2, 3]))
+            marks = rng.random() < 0.5       # stale marking re-sorts: no two paths of one peer in a destination then
             for f in fams:
                 if rng.random() < 0.8:
                     ops.append(('start', f))
             for _ in range(rng.randint(1, 12)):
                 x = rng.random()
                 f = rng.choice(fams if rng.random() < 0.9 else F)
-                if x < 0.55:
-                    ops.append(('ins', f, rng.randint(0, 3), rng.randint(1, 3), rng.choice([0, 0, 1]), rng.random() < 0.25))
-                elif x < 0.68:
-                    ops.append(('rem', f, rng.randint(0, 3), rng.randint(1, 3), rng.choice([0, 0, 1])))
-                elif x < 0.74:
+                pid = 0 if marks else rng.choice([0, 0, 1])
+                if x < 0.45:
+                    ops.append(('ins', f, rng.randint(0, 3), rng.randint(1, 3), pid, rng.random() < 0.25,
+                                rng.choice([0, 1, 1, 2]), rng.random() < 0.15))
+                elif x < 0.55:
+                    ops.append(('rem', f, rng.randint(0, 3), rng.randint(1, 3), pid))
+                elif x < 0.61:
                     ops.append(('drop', f, rng.randint(1, 3)))
-                elif x < 0.9:
+                elif x < 0.67 and marks:
+                    ops.append(('restale', f, rng.randint(1, 3)))
+                elif x < 0.73 and marks:
+                    ops.append(('dstale', f, rng.randint(1, 3)))
+                elif x < 0.80:
+                    ops.append(('nhv', rng.choice([1, 2]), rng.random() < 0.5))
+                elif x < 0.92:
                     ops.append(('end', f))
                 else:
                     ops.append(('start', f))
             for f in fams:
                 if rng.random() < 0.7:
                     ops.append(('end', f))
-            cases.append(dict(kind='tab', ops=ops))
+            cases.append(dict(kind='tab', cls='tab_random', ops=ops))
         # -- E: the composed system (real Global / TableManager / process_restarting_outputs)
         nsys = 500 if tier == 'quick' else 5000
         for _ in range(nsys):
@@ -326,7 +384,7 @@ class Prop:
             return obs
         k = case.get('kind', 'rd')
         if k == 'tab':
-            return [[[r[0], sorted(r[1])] if r and r[0] == 2 else r, d] for r, d in obs]
+            return [[[r[0], sorted(r[1])] if r and r[0] in (2, 3) else r, d] for r, d in obs]
         if k == 'sys':
             return [obs[0], obs[1], [[a, b, fl, sorted(ann)] for a, b, fl, ann in obs[2]]]
         return [canon_outs(obs[0]), obs[1], [[canon_outs(o), b] for o, b in obs[2]]]
@@ -423,13 +481,13 @@ class Prop:
     def classify(self, c, obs):
         k = c.get('kind', 'rd')
         if k == 'tab':
-            return ['tab'] + ['tab_' + o[0] for o in c['ops']]
+            return ['tab', c.get('cls', 'tab_corpus')] + ['tab_' + o[0] for o in c['ops']]
         if k == 'sys':
             tags = ['sys', 'sys_disciplined' if disciplined(mk_cfg(c['peers']), [e[1] for e in c['evs'] if e[0] == 'rd']) else 'sys_undisciplined']
             if obs != [-1] and obs[2] and not obs[2][-1][0]: tags.append('sys_ends_cleared')
             return tags + ['sys_' + (e[1][0] if e[0] == 'rd' else 'insert') for e in c['evs']]
         n = len(c['ins'])
-        tags = ['len_%s' % ('0-3' if n <= 3 else '4-6' if n <= 6 else '7+'),
+        tags = [c.get('cls', 'rd_machine'), 'len_%s' % ('0-3' if n <= 3 else '4-6' if n <= 6 else '7+'),
                 'disciplined' if disciplined(mk_cfg(c['peers']), c['ins']) else 'undisciplined']
         if obs != [-1]:
             if obs[2] and obs[2][-1][1]: tags.append('ends_completed')
@@ -447,56 +505,96 @@ def was_blocked_by(cfg, hist, p):
 
 # ------------------------------------------------------------ RIB-slice oracle
 def oracle_tab(c, obs):
-    """insert returns NoChange while the family is deferring; end_deferral clears the flag and
-    emits every destination that has an unfiltered path exactly once (with all its paths)."""
+    """While a family is deferring nothing of it reaches the distribution layer, whatever touches the table
+    (insert, withdrawal, peer drop, stale marking, stale purge, next-hop validity); the table is updated all the
+    same, and end_deferral clears the flag and reports every destination once with its eligible paths (a prefix
+    received meanwhile that has an eligible path is announced exactly once).  Outside deferral every operation
+    reports what it changed."""
     if obs == [-1]:
-        return 'panic in Table start_deferral/insert/end_deferral'
+        return 'panic in the Table operations'
     deferring = {}
-    paths = {}          # (f, net) -> {(peer, pid): filtered}
+    paths = {}          # (f, net) -> {(peer, pid): dict(flt, nh, inv, stale)}
+    def elig(p): return not p['flt'] and not p['inv']
+    def count(d): return len([1 for p in d.values() if elig(p)])
+    def cleanup():
+        for key in [key for key, d in paths.items() if not d]:
+            del paths[key]
     for k, (o, (res, flag)) in enumerate(zip(c['ops'], obs)):
+        if o[0] == 'nhv':
+            want = []
+            for (ff, net), d in sorted(paths.items()):
+                hit = [p for p in d.values() if p['nh'] == o[1] and o[1] != 0 and p['inv'] != (not o[2])]
+                for p in hit:
+                    p['inv'] = not o[2]
+                if hit and not deferring.get(ff):
+                    want.append([ff, net, count(d)])
+            got = sorted(res[1]) if res and res[0] == 3 else res
+            if any(deferring.get(x[0]) for x in (got if isinstance(got, list) else [])):
+                return 'op %d: next-hop validity change handed a change of a deferring family to the distribution layer (%s)' % (k, got)
+            if got != sorted(want):
+                return 'op %d: next-hop validity change reported %s, expected %s' % (k, got, sorted(want))
+            continue
         f = o[1]
+        dfr = bool(deferring.get(f))
         if o[0] == 'start':
             deferring[f] = True
         elif o[0] == 'ins':
-            d = paths.setdefault((f, o[2]), {})
-            d[(o[3], o[4])] = o[5]
-            if deferring.get(f) and res != [0]:
+            _, net, peer, pid, flt, nh, nhinv = ins_args(o)
+            d = paths.setdefault((f, net), {})
+            old = d.get((peer, pid))
+            d[(peer, pid)] = dict(flt=flt, nh=nh, inv=nhinv, stale=False)
+            if dfr and res != [0]:
                 return 'op %d: insert into deferring family %d returned a change' % (k, f)
-            if not deferring.get(f) and not o[5]:
-                n = len([1 for v in d.values() if not v])
-                if res != [1, o[2], n]:
-                    return 'op %d: unfiltered insert into non-deferring family not announced with its %d paths' % (k, n)
+            if not dfr:
+                if not flt or (old is not None and not old['flt']):
+                    if res != [1, net, count(d)]:
+                        return 'op %d: insert into non-deferring family: got %s, expected a change with %d paths' % (k, res, count(d))
+                elif res != [0]:
+                    return 'op %d: filtered insert over a filtered / absent path reported %s' % (k, res)
         elif o[0] == 'rem':
             d = paths.get((f, o[2]), {})
             had = d.pop((o[3], o[4]), None)
-            if deferring.get(f) and res != [0]:
+            if dfr and res != [0]:
                 return 'op %d: withdrawal in deferring family %d handed a change (%s) to the distribution layer' % (k, f, res)
-            if not deferring.get(f) and had is False:
-                n = len([1 for v in d.values() if not v])
-                if res != [1, o[2], n]:
-                    return 'op %d: withdrawal of an unfiltered path in non-deferring family not announced' % k
-        elif o[0] == 'drop':
-            lost = {}
-            for (ff, net), d in paths.items():
+            if not dfr:
+                want = [1, o[2], count(d)] if (had is not None and not had['flt']) else [0]
+                if res != want:
+                    return 'op %d: withdrawal in non-deferring family: got %s, expected %s' % (k, res, want)
+        elif o[0] in ('drop', 'dstale'):
+            want = []
+            for (ff, net), d in sorted(paths.items()):
                 if ff != f:
                     continue
-                gone = [key for key in d if key[0] == o[2]]
-                if any(not d[key] for key in gone):
-                    lost[net] = None
+                gone = [key for key, p in d.items() if key[0] == o[2] and (o[0] == 'drop' or p['stale'])]
+                lost = any(elig(d[key]) for key in gone)
                 for key in gone:
                     del d[key]
-                if net in lost:
-                    lost[net] = len([1 for v in d.values() if not v])
-            if deferring.get(f) and res[1]:
-                return 'op %d: peer drop in deferring family %d handed changes (%s) to the distribution layer' % (k, f, res[1])
-            if not deferring.get(f) and sorted(res[1]) != sorted([n, c] for n, c in lost.items()):
-                return 'op %d: peer drop in non-deferring family announced %s, expected %s' % (k, res[1], sorted(lost.items()))
+                if lost:
+                    want.append([net, count(d)])
+            if dfr and res[1]:
+                return 'op %d: %s in deferring family %d handed changes (%s) to the distribution layer' % (k, o[0], f, res[1])
+            if not dfr and sorted(res[1]) != sorted(want):
+                return 'op %d: %s in non-deferring family reported %s, expected %s' % (k, o[0], res[1], sorted(want))
+        elif o[0] == 'restale':
+            want = []
+            for (ff, net), d in sorted(paths.items()):
+                if ff != f:
+                    continue
+                mine = [p for key, p in d.items() if key[0] == o[2]]
+                for p in mine:
+                    p['stale'] = True
+                if any(not p['flt'] for p in mine):
+                    want.append([net, count(d)])
+            if dfr and res[1]:
+                return 'op %d: stale marking in deferring family %d handed changes (%s) to the distribution layer' % (k, f, res[1])
+            if not dfr and sorted(res[1]) != sorted(want):
+                return 'op %d: stale marking in non-deferring family reported %s, expected %s' % (k, res[1], sorted(want))
         else:
             deferring[f] = False
-            want = sorted([net, len([1 for v in d.values() if not v])] for (ff, net), d in paths.items()
-                          if ff == f and any(not v for v in d.values()))
+            want = sorted([net, count(d)] for (ff, net), d in paths.items() if ff == f)
             if res[0] != 2 or sorted(res[1]) != want:
-                return 'op %d: end_deferral(%d) emitted %s, held prefixes are %s' % (k, f, res, want)
+                return 'op %d: end_deferral(%d) reported %s, the destinations are %s' % (k, f, res, want)
+        cleanup()
         if bool(flag) != bool(deferring.get(f)):
             return 'op %d: deferring flag of %d is %s' % (k, f, flag)
     return None
